@@ -4,10 +4,10 @@ package c01
 
 import (
 	"crypto/tls"
-	"errors"
-	"io"
 	"encoding/json"
+	"errors"
 	"fmt"
+	"io"
 	"math/rand"
 	"net"
 	"strings"
@@ -91,23 +91,23 @@ type Case struct {
 }
 
 type builder struct {
-	r       *rand.Rand
-	S       []byte
-	off     int // stream bytes consumed by handlers so far
-	wireOff int // bytes of wire that precede S in the current buffer domain (PROXY header)
-	expects []Expect
-	tees    []Expect
-	shape   []string
-	names   int
-	maxNeed int
-	echo    bool
+	r        *rand.Rand
+	S        []byte
+	off      int // stream bytes consumed by handlers so far
+	wireOff  int // bytes of wire that precede S in the current buffer domain (PROXY header)
+	expects  []Expect
+	tees     []Expect
+	shape    []string
+	names    int
+	maxNeed  int
+	echo     bool
 	echoFrom int
 	// floor: within one route list every matcher of a later route needs at least as
 	// many bytes as decides the previous route, so that a later route can only answer
 	// "more" while an earlier one is still undecided (otherwise the router may
 	// legitimately evaluate it at an offset it was not designed for).
-	floor    int
-	curMax   int
+	floor  int
+	curMax int
 }
 
 func (b *builder) name(prefix string) string {
